@@ -1,13 +1,13 @@
 #!/bin/sh
 # usage: run_benign.sh <dir with patch.diff> <label> — applies a property-PRESERVING change in a scratch
-# worktree and runs all five checks (isolated). Every check must exit 0.
+# worktree and runs all five checks (or those in $CHECKS), isolated. Every check must exit 0.
 SRC="$1"; L="$2"
 WT=/tmp/bn_wt
 git -C /repo worktree remove --force $WT >/dev/null 2>&1
 git -C /repo worktree add --detach $WT HEAD >/dev/null 2>&1 || exit 2
 if ! git -C $WT apply "$SRC/patch.diff" 2>/dev/null; then echo "$L: patch does not apply to HEAD"; git -C /repo worktree remove --force $WT; exit 0; fi
 mkdir -p /verif/work/seedruns /verif/work/bn-evidence /verif/work/bn-replays
-for P in C07 C13 C14 C15 C17; do
+for P in ${CHECKS:-C07 C13 C14 C15 C17}; do
   VERIF_REPO=$WT VERIF_WORK_TAG=-benign VERIF_REPLAY_DIR=/verif/work/bn-replays VERIF_EVIDENCE_DIR=/verif/work/bn-evidence /verif/bin/check $P quick > /verif/work/seedruns/benign-$L-$P.log 2>&1; rc=$?
   echo "benign-$L $P exit=$rc $(grep -m1 '^--- violation' /verif/work/seedruns/benign-$L-$P.log | cut -c1-200)"
 done
